@@ -79,6 +79,11 @@ func LoadWorld(repo string, overlay map[string][]byte, extraEnv []string) (*Worl
 		}
 	}
 	applyRoles()
+	// reference package functions that became methods (reshape.go)
+	if mw, mov := methodsToFunctions(w, repo, cur, extraEnv); mw != w {
+		w, cur = mw, mov
+		applyRoles()
+	}
 	// helper normalisation (inline.go): functions that are not in the reference table are inlined into their callers
 	// field groups (flatten.go): fields of a reference struct that were moved into a new sub-struct are read in place
 	if fw, fov := flattenGroups(w, repo, cur, extraEnv); fw != w {
